@@ -39,3 +39,8 @@ more('decl.c', 'decl', 'error', "function '%s' redefined",
      T('fdecl', 'inline int f_(void) { return 1; } int f_(void) { return 2; }', "'f_'"),
      T('fdecl', 'static inline int f_(void) { return 1; } static inline int f_(void) { return 2; }', "'f_'"),
      T('fdecl', 'extern inline int f_(void) { return 1; } inline int f_(void) { return 2; }', "'f_'"))
+
+# /repo: _Alignas(type-name) needs a complete object type (the alignment of a function type was read uninitialised)
+site('decl.c', 'declspecs', 'error', 'alignment specifier applied to incomplete or function type',
+     T('decl', '_Alignas(int(void)) int x_;'), T('decl', 'struct s_; _Alignas(struct s_) int x_;'), T('decl', '_Alignas(int[]) int x_;'),
+     T('decl', '_Alignas(void) int x_;'), T('bdecl', '_Alignas(union u_) char c_;', pre='union u_;'))
